@@ -239,7 +239,9 @@ type runner struct {
 
 // run executes entry point e (with flag bits fl) on src and records the case.
 func (rn *runner) run(kind string, e int, fl int, src string) {
-	if !utf8.ValidString(src) {
+	if !utf8.ValidString(src) || hangs >= 3 {
+		// three hangs are three failing inputs: stop running the implementation (every
+		// hung call keeps spinning in its goroutine and costs the 10 s watchdog)
 		return
 	}
 	key := fmt.Sprintf("%d/%d/%s", e, fl, src)
